@@ -107,7 +107,7 @@ theorem roundtrip_unsorted_false : ¬ ∀ m : Metrics, roundTripUnsorted m = som
 
 /-- Round trip through the unsorted converters for every clean batch (`Metrics.clean`: distinct
     attribute keys, number points with a value or flagged NoRecordedValue, histogram buckets =
-    bounds + 1 unless flagged, valid temporality, 32-bit scale/offsets, 16/8-byte exemplar ids;
+    bounds + 1 or neither buckets nor bounds (accepted since repo commit 9c5d1f7) unless flagged, valid temporality, 32-bit scale/offsets, 16/8-byte exemplar ids;
     flagged summaries and exemplars on flagged points are covered since repo commit ede8608): both
     conversions succeed and the data points come back in
     the same order with the same resource, scope, metric identity and metadata, attributes,
@@ -191,7 +191,8 @@ theorem roundtrip_sorted_both (m : Metrics) (hc : m.clean = true) (hb : m.b64 = 
     identity, a flagged point, per-point bounds (one differing from the previous point's only in the
     sign of a zero), exemplars with unsorted filtered attributes, nested array and a nested map of three
     entries, NaN, infinity and -0.0 values (the latter written over +0.0), a flagged summary point,
-    a flagged point with an exemplar and a flagged number point without a value. -/
+    a flagged point with an exemplar, a flagged number point without a value and a histogram point
+    without buckets. -/
 def sample : Metrics :=
   let id16 := List.replicate 16 3
   let id8 := List.replicate 8 4
@@ -209,7 +210,8 @@ def sample : Metrics :=
       { ts := 5, count := 3, hasSum := true, sum := 0x3ff0000000000000, buckets := [1, 2], bounds := [0x4000000000000000] },
       { ts := 6, count := 1, buckets := [1], bounds := [], exemplars := [ex1] },
       { ts := 7, count := 1, buckets := [1, 0], bounds := [0] },
-      { ts := 8, count := 1, buckets := [1, 0], bounds := [negZero] }] }
+      { ts := 8, count := 1, buckets := [1, 0], bounds := [negZero] },
+      { ts := 9, count := 4, buckets := [], bounds := [] }] }
   let e : Metric := { name := [101], type := .exp, temp := 2, points := [
       { ts := 7, count := 2, scale := 0xffffffff, posOff := 1, pos := [1, 1], negOff := 0xfffffffe, neg := [2],
         hasMin := true, min := 0xfff0000000000000 }] }
@@ -221,10 +223,10 @@ def sample : Metrics :=
             { url := [119], scopes := [{ metrics := [e] }] },
             { res with scopes := [{ name := [115], metrics := [su] }] }] }
 
-example : sample.clean = true ∧ sample.b64 = true ∧ (flatten sample).length = 19 := by decide
+example : sample.clean = true ∧ sample.b64 = true ∧ (flatten sample).length = 20 := by decide
 
 example : ∃ recs m', otlpToStefUnsorted sample = .ok recs ∧ stefToOtlpUnsorted recs = .ok m' ∧
-    flatten m' = (flatten sample).map DataPoint.sortExAttrs ∧ recs.length = 19 := by
+    flatten m' = (flatten sample).map DataPoint.sortExAttrs ∧ recs.length = 20 := by
   obtain ⟨recs, m', h1, h2, h3⟩ := roundtrip_unsorted_partial sample (by decide)
   exact ⟨recs, m', h1, h2, h3, by rw [record_count sample recs h1]; decide⟩
 
